@@ -254,8 +254,9 @@ def run_and_judge(ctx, cases, P, tag, timeout=600, known_hang=False):
                 if mr.get("BUILD") != ["1"]:
                     ctx.signal("K", "%s:build" % tag, "construction model differs from the implementation's package", case=c["line"],
                                extra=dict(model_case=line))
-            for key in ("FI", "FBI", "RSI", "RM", "RL"):
-                a = split_ranks(res.get(pre + key, [])); b = split_ranks(mr.get(key, []))
+            for key in ("FI", "FBI", "FBX", "RSI", "RM", "RL"):
+                # FBX: the model's scalar exchange through the expanded package against the implementation's block exchange (FBI)
+                a = split_ranks(res.get(pre + ("FBI" if key == "FBX" else key), [])); b = split_ranks(mr.get(key, []))
                 if a != b:
                     ctx.signal("K", "%s:%s" % (tag, key), "model %s vs implementation %s" % (b, a), case=c["line"],
                                extra=dict(model_case=line))
